@@ -43,17 +43,16 @@ FULL_LIBS = ["-lmosquitto", "-lssl", "-lcrypto"]
 BASE_DEFS = ["-DHAVE_CONFIG_H", "-D_GNU_SOURCE", "-I" + COMMON + "/cfg", "-I" + SRC,
              "-I" + SRC + "/lib/ebus", "-I" + SRC + "/lib/utils", "-I" + SRC + "/ebusd"]
 
+RENAME_H = os.path.join(VERIF, "engines", "schedmc", "vp_pthread_rename.h")
+SAN = ["-fsanitize=address,undefined", "-fno-sanitize-recover=undefined"]
 VARIANTS = {
-    # compiler, flags for ebusd objects, extra link flags
-    "plain": ("g++", ["-std=c++11", "-O2", "-g", "-fno-omit-frame-pointer"], []),
-    "san": ("g++", ["-std=c++11", "-O1", "-g", "-fno-omit-frame-pointer",
-                    "-fsanitize=address,undefined", "-fno-sanitize-recover=undefined"],
-            ["-fsanitize=address,undefined"]),
-    "tsan": ("clang++", ["-std=c++11", "-O1", "-g", "-fsanitize=thread"],
-             ["-fsanitize=thread"]),
-    "sched": ("g++", ["-std=c++11", "-O1", "-g", "-fno-omit-frame-pointer",
-                      "-include", os.path.join(VERIF, "engines", "schedmc", "vp_pthread_rename.h")],
-              []),
+    # compiler, flags for ebusd objects and harness, extra link flags, flags for ebusd objects only
+    "plain": ("g++", ["-std=c++11", "-O2", "-g", "-fno-omit-frame-pointer"], [], []),
+    "san": ("g++", ["-std=c++11", "-O1", "-g", "-fno-omit-frame-pointer"] + SAN, ["-fsanitize=address,undefined"], []),
+    "tsan": ("clang++", ["-std=c++11", "-O1", "-g", "-fsanitize=thread"], ["-fsanitize=thread"], []),
+    "sched": ("g++", ["-std=c++11", "-O1", "-g", "-fno-omit-frame-pointer"], [], ["-include", RENAME_H]),
+    "schedsan": ("g++", ["-std=c++11", "-O1", "-g", "-fno-omit-frame-pointer"] + SAN, ["-fsanitize=address,undefined"],
+                 ["-include", RENAME_H]),
 }
 
 
@@ -129,12 +128,12 @@ def _prune(directory, prefix, keep):
 
 def build_objects(variant, libset, extra_flags=()):
     """returns (list of object paths, combined key)"""
-    cxx, flags, _ = VARIANTS[variant]
-    flags = list(flags) + list(extra_flags)
+    cxx, flags, _, oflags = VARIANTS[variant]
+    flags = list(flags) + list(oflags) + list(extra_flags)
     hh = headers_hash()
     extra_dep = b""
-    if variant == "sched":
-        extra_dep = _read(os.path.join(VERIF, "engines", "schedmc", "vp_pthread_rename.h"))
+    if oflags:
+        extra_dep = _read(RENAME_H)
     vdir = variant if not extra_flags else variant + "-" + _sha(*extra_flags)[:6]
     odir = os.path.join(BUILD, "obj", vdir)
     os.makedirs(odir, exist_ok=True)
@@ -167,12 +166,8 @@ def build_harness(name, sources, variant="plain", libset="core", flags=(), libs=
     """compile+link a harness; returns the executable path"""
     with Lock():
         objs, okey = build_objects(variant, libset, obj_flags)
-        cxx, vflags, lflags = VARIANTS[variant]
+        cxx, vflags, lflags, _ = VARIANTS[variant]
         vflags = [f for f in vflags if not f.startswith("-std=")]
-        if variant == "sched":
-            # the rename header must not be forced on harness TUs
-            vflags = [f for i, f in enumerate(vflags)
-                      if f != "-include" and (i == 0 or vflags[i - 1] != "-include")]
         srcs = [s if os.path.isabs(s) else os.path.join(VERIF, s) for s in sources]
         h = [okey, cxx, " ".join(vflags), " ".join(flags), " ".join(libs), std]
         for s in srcs:
